@@ -26,30 +26,43 @@ Definition eth_of (o : option eorc) : ethapi eorc :=
                  | None => None end)
     eo_enc eo_nonce eo_gasprice eo_gas eo_sender eo_sighash eo_hash.
 
+(** Byte strings of the recorded outcome that are sub-slices of the input buffer (the decoder is
+    zero-copy) are recorded by position: [Sl off len] = slice buffer off len. *)
+Inductive bref := Lit (b : bytes) | Sl (off len : N).
+Definition deref (buffer : bytes) (r : bref) : bytes :=
+  match r with Lit b => b | Sl o l => slice buffer (N.to_nat o) (N.to_nat l) end.
+
 Inductive opayload :=
-| OInvoke (code : bytes)
-| ODeploy (code : bytes) (flags : N) (name version author email desc : bytes)
+| OInvoke (code : bref)
+| ODeploy (code : bref) (flags : N) (name version author email desc : bref)
 | OEip.
+
+(** go-ethereum's answers as recorded (payload and re-encoding by reference). *)
+Inductive eref := ERef (code enc : bref) (nonce gasprice gas : N) (sender : option bytes) (sighash hash : bytes).
+Definition eorc_of (buffer : bytes) (e : eref) : eorc :=
+  match e with ERef code enc nonce gp gas sender sh h =>
+    mkEorc (deref buffer code) (deref buffer enc) nonce gp gas sender sh h end.
 
 (** Projection of an accepted types.Transaction. [hpre]: length of the prefix p of the consumed
     bytes with sha256(sha256(p)) = tx.Hash() as measured by the harness (Ontology format). *)
 Inductive outcome :=
 | OErr (e : terr)
-| OTx (ver ty nonce gp gl : N) (payer : bytes) (p : opayload) (sigs : list (bytes * bytes))
-      (raw : bytes) (hpre : N) (hash : bytes)
+| OTx (ver ty nonce gp gl : N) (payer : bytes) (p : opayload) (sigs : list (bref * bref))
+      (raw : bref) (hpre : N) (hash : bytes)
 (** accepted (large input): only the consumed range, Raw, the writer and the hash range are compared *)
 | OAccepted (hpre : N).
 
 Inductive case :=
 (** source over [b] positioned at [start]; Deserialization; outcome; Pos() afterwards *)
-| CDeser (real : bool) (b : bytes) (start : N) (eo : option eorc) (out : outcome) (pos : N)
+| CDeser (real : bool) (b : bytes) (start : N) (eo : option eref) (out : outcome) (pos : N)
 (** same, [b] given as prefix ++ repeat fill n ++ suffix (large inputs) *)
 | CDeserBig (pre : bytes) (fill n : N) (suf : bytes) (start : N) (out : outcome) (pos : N)
 (** TransactionFromRawBytes *)
-| CRaw (b : bytes) (eo : option eorc) (out : outcome)
+| CRaw (b : bytes) (eo : option eref) (out : outcome)
 | CRawBig (pre : bytes) (fill n : N) (suf : bytes) (out : outcome)
 (** MutableTransaction{fields, no sigs}.IntoImmutable().ToArray() *)
 | CMut (ver ty nonce gp gl : N) (payer : bytes) (p : opayload) (out : bytes).
+(* in CMut the payload references point into [out] *)
 
 Definition terr_eqb (a b : terr) : bool :=
   match a, b with
@@ -60,13 +73,13 @@ Definition terr_eqb (a b : terr) : bool :=
   | _, _ => false
   end.
 
-Definition payload_matches (p : payload eorc) (o : opayload) : bool :=
+Definition payload_matches (B : bytes) (p : payload eorc) (o : opayload) : bool :=
   match p, o with
-  | PInvoke c, OInvoke c' => bytes_eqb c c'
+  | PInvoke c, OInvoke c' => bytes_eqb c (deref B c')
   | PDeploy d, ODeploy code flags name version author email desc =>
-      bytes_eqb (d_code d) code && (d_flags d =? flags) && bytes_eqb (d_name d) name &&
-      bytes_eqb (d_version d) version && bytes_eqb (d_author d) author &&
-      bytes_eqb (d_email d) email && bytes_eqb (d_desc d) desc
+      bytes_eqb (d_code d) (deref B code) && (d_flags d =? flags) && bytes_eqb (d_name d) (deref B name) &&
+      bytes_eqb (d_version d) (deref B version) && bytes_eqb (d_author d) (deref B author) &&
+      bytes_eqb (d_email d) (deref B email) && bytes_eqb (d_desc d) (deref B desc)
   | PEip _, OEip => true
   | _, _ => false
   end.
@@ -77,17 +90,18 @@ Definition sig_matches (g o : bytes * bytes) : bool :=
 Definition is_eip (p : payload eorc) : bool := match p with PEip _ => true | _ => false end.
 
 (** [consumed]: the bytes between the start position and the end position. *)
-Definition outcome_matches (real : bool) (E : ethapi eorc) (consumed : bytes)
+Definition outcome_matches (B : bytes) (real : bool) (E : ethapi eorc) (consumed : bytes)
            (r : tx eorc + terr) (out : outcome) : bool :=
   match r, out with
   | inr e, OErr e' => terr_eqb e e'
   | inl t, OTx ver ty nonce gp gl payer p sigs raw hpre hash =>
       (t_version t =? ver) && (t_type t =? ty) && (t_nonce t =? nonce) && (t_gasprice t =? gp) &&
-      (t_gaslimit t =? gl) && bytes_eqb (t_payer t) payer && payload_matches (t_payload t) p &&
-      list_eqb sig_matches (map (fun g => (sg_invoke g, sg_verify g)) (t_sigs t)) sigs &&
-      bytes_eqb (t_raw t) raw &&
+      (t_gaslimit t =? gl) && bytes_eqb (t_payer t) payer && payload_matches B (t_payload t) p &&
+      list_eqb sig_matches (map (fun g => (sg_invoke g, sg_verify g)) (t_sigs t))
+                           (map (fun g => (deref B (fst g), deref B (snd g))) sigs) &&
+      bytes_eqb (t_raw t) (deref B raw) &&
       (* the model's own writer reproduces the consumed bytes and Raw *)
-      bytes_eqb (tx_encode E t) consumed && bytes_eqb (tx_encode E t) raw &&
+      bytes_eqb (tx_encode E t) consumed &&
       (if is_eip (t_payload t) || real then bytes_eqb (t_hash t) hash
        else bytes_eqb (t_hash t) (firstn (N.to_nat hpre) consumed))
   | inl t, OAccepted hpre =>
@@ -98,24 +112,25 @@ Definition outcome_matches (real : bool) (E : ethapi eorc) (consumed : bytes)
 
 Definition idH (b : bytes) : bytes := b.
 
-Definition deser_ok (real : bool) (b : bytes) (start : N) (eo : option eorc) (out : outcome) (pos : N) : bool :=
-  let E := eth_of eo in
+Definition deser_ok (real : bool) (b : bytes) (start : N) (eo : option eref) (out : outcome) (pos : N) : bool :=
+  let E := eth_of (option_map (eorc_of b) eo) in
   let s := mkSrc b (N.to_nat start) in
   let '(r, s') := tx_deserialization (if real then sha256 else idH) E s in
   (src_pos s' =? pos) &&
-  outcome_matches real E (slice b (N.to_nat start) (off s' - N.to_nat start)) r out.
+  outcome_matches b real E (slice b (N.to_nat start) (off s' - N.to_nat start)) r out.
 
 Definition big (pre : bytes) (fill n : N) (suf : bytes) : bytes := pre ++ repeat fill (N.to_nat n) ++ suf.
 
-Definition raw_ok (b : bytes) (eo : option eorc) (out : outcome) : bool :=
-  let E := eth_of eo in
+Definition raw_ok (b : bytes) (eo : option eref) (out : outcome) : bool :=
+  let E := eth_of (option_map (eorc_of b) eo) in
   let '(r, s') := tx_from_raw_bytes idH E b in
-  outcome_matches false E (firstn (off s') b) r out.
+  outcome_matches b false E (firstn (off s') b) r out.
 
-Definition of_opayload (o : opayload) : payload eorc :=
+Definition of_opayload (B : bytes) (o : opayload) : payload eorc :=
   match o with
-  | OInvoke c => PInvoke c
-  | ODeploy code flags name version author email desc => PDeploy (mkDeploy code flags name version author email desc)
+  | OInvoke c => PInvoke (deref B c)
+  | ODeploy code flags name version author email desc =>
+      PDeploy (mkDeploy (deref B code) flags (deref B name) (deref B version) (deref B author) (deref B email) (deref B desc))
   | OEip => PInvoke []
   end.
 
@@ -126,7 +141,7 @@ Definition case_ok (c : case) : bool :=
   | CRaw b eo out => raw_ok b eo out
   | CRawBig pre fill n suf out => raw_ok (big pre fill n suf) None out
   | CMut ver ty nonce gp gl payer p out =>
-      bytes_eqb (encode_unsigned (eth_of None) ver ty nonce gp gl payer (of_opayload p) 0 ++ sigs_encode [])
+      bytes_eqb (encode_unsigned (eth_of None) ver ty nonce gp gl payer (of_opayload out p) 0 ++ sigs_encode [])
                 out
   end.
 
